@@ -714,3 +714,29 @@ def option_field_none_edges(f, adt, field):
             g_ = cfg.call_guard(f, b)
             none_edges |= (g_.fail if fnm.endswith("is_some") else g_.ok)
     return none_edges
+
+
+def option_value_none_edges(f, is_src):
+    """CFG edges of f on which an Option *value* (a local of type Option<..> whose precise producers - looked through
+    `?` and moves, not through calls such as unwrap_or - satisfy is_src) is known to be None: not-Some successors of a discriminant switch on it, false edges of is_some(), true edges of is_none()."""
+    none_edges = set()
+    for b, bb in enumerate(f.bbs):
+        for st in bb["s"]:
+            if st["k"] == "a" and st["r"]["k"] == "disc" and not st["d"][1]:
+                q = st["r"]["p"]
+                if not (f.locals[q[0]]["ty"] or "").startswith("core::option::Option<") or any(e != "*" for e in q[1]):
+                    continue
+                if not is_src(vf.producers(f, {"c": [q[0], []]})):
+                    continue
+                t = bb["t"]
+                if t["k"] == "sw" and vf.op_place(t["o"]) and vf.op_place(t["o"])[0] == st["d"][0]:
+                    some = {tb for v, tb in t["t"] if v == "1"}
+                    for s_ in f.succ(b):
+                        if s_ not in some:
+                            none_edges.add((b, s_))
+    for b, t in f.calls():
+        fnm = t.get("f") or ""
+        if fnm.endswith(("Option::<T>::is_some", "Option::<T>::is_none")) and is_src(vf.producers(f, t["a"][0])):
+            g_ = cfg.call_guard(f, b)
+            none_edges |= (g_.fail if fnm.endswith("is_some") else g_.ok)
+    return none_edges
